@@ -271,6 +271,7 @@ inductive Ev where
   | enter (p : List Str)                          -- enterDir (first pass: ensureDir)
   | visit (p : List Str) (isFile : Bool)          -- visitNode on a selected non-directory
   | leave (p : List Str) (expected : Option (List Str))   -- leaveDir with the names of the tree, `none` = nil slice
+  | skipped (p : List Str) (expected : Option (List Str)) -- skippedDir: traversed, nothing restored inside
 deriving Repr, DecidableEq
 
 mutual
@@ -285,7 +286,8 @@ def trNode (sel : List Str → Bool → Bool × Bool) (names : List Str) : Node 
     match (if s.2 then (match trList sel (names ++ [n]) ch with | (e, r) => (e, r, some (ch.map Node.name)))
            else ([], false, none)) with
     | (evs, childHasRestored, filenames) =>
-      let evLeave := if s.1 || childHasRestored then [Ev.leave (names ++ [n]) filenames] else []
+      let evLeave := if s.1 || childHasRestored then [Ev.leave (names ++ [n]) filenames]
+        else if s.2 then [Ev.skipped (names ++ [n]) filenames] else []
       (evEnter ++ evs ++ evLeave, s.1 || childHasRestored)
 def trList (sel : List Str → Bool → Bool × Bool) (names : List Str) : List Node → List Ev × Bool
   | [] => ([], false)
@@ -294,11 +296,32 @@ def trList (sel : List Str → Bool → Bool × Bool) (names : List Str) : List 
     | (e1, r1), (e2, r2) => (e1 ++ e2, r1 || r2)
 end
 
-/-- `traverseTree`: the root is always entered, left only if something was restored -/
+/-- `traverseTree`: the root is always entered; `leaveDir` if something was restored, `skippedDir`
+    otherwise -/
 def traverse (sel : List Str → Bool → Bool × Bool) (root : List Node) : List Ev :=
   match trList sel [] root with
   | (evs, hasRestored) =>
-    [Ev.enter []] ++ evs ++ (if hasRestored then [Ev.leave [] (some (root.map Node.name))] else [])
+    [Ev.enter []] ++ evs ++ (if hasRestored then [Ev.leave [] (some (root.map Node.name))]
+                             else [Ev.skipped [] (some (root.map Node.name))])
+
+/-- the traversal as it was before the fix of finding C20:delete:selected-stale-entry-survives:
+    no `skippedDir` callback -/
+def traverseOld (sel : List Str → Bool → Bool × Bool) (root : List Node) : List Ev :=
+  (traverse sel root).filter fun | .skipped _ _ => false | _ => true
+
+mutual
+def dirListingsNode (names : List Str) : Node → List (List Str × List Str)
+  | .dir n ch => (names ++ [n], ch.map Node.name) :: dirListingsList (names ++ [n]) ch
+  | .file _ _ => []
+  | .other _ => []
+def dirListingsList (names : List Str) : List Node → List (List Str × List Str)
+  | [] => []
+  | c :: cs => dirListingsNode names c ++ dirListingsList names cs
+end
+
+/-- every directory of the snapshot (the root included) with the names in its tree -/
+def dirListings (root : List Node) : List (List Str × List Str) :=
+  ([], root.map Node.name) :: dirListingsList [] root
 
 /-- is `a` a prefix of `b` (`b` lies in or below `a`)? -/
 def isPrefix (a b : List Str) : Bool := a.length ≤ b.length && b.take a.length == a
@@ -310,17 +333,25 @@ def created (evs : List Ev) : List (List Str) :=
     | .enter p => (List.range (p.length + 1)).map p.take
     | .visit p _ => (List.range (p.length + 1)).map p.take
     | .leave _ _ => []
+    | .skipped _ _ => []
 
-/-- `removeUnexpectedFiles` for all `leaveDir` calls: `pre` = entries that existed in the target
+/-- the directory and name list handed to `removeUnexpectedFiles` by the second pass -/
+def delDir : Ev → Option (List Str × Option (List Str))
+  | .leave p e => some (p, e)
+  | .skipped p e => some (p, e)
+  | _ => none
+
+/-- `removeUnexpectedFiles` for all `leaveDir` / `skippedDir` calls: `pre` = entries that existed in the target
     before the restore (names-paths relative to the target). Returns the top-most removed entries. -/
 def deletedTops (sel : List Str → Bool → Bool × Bool) (evs : List Ev) (pre : List (List Str)) : List (List Str) :=
-  evs.flatMap fun
-    | .leave p expected =>
+  evs.flatMap fun ev =>
+    match delDir ev with
+    | some (p, expected) =>
       pre.filter fun e =>
         e.length = p.length + 1 && isPrefix p e &&
         !((expected.getD []).contains (e.getLast?.getD [])) &&
         (sel e false).1
-    | _ => []
+    | none => []
 
 /-- the set of names-paths below the target after `restore [--delete]` (as a membership test) -/
 def afterRestore (sel : List Str → Bool → Bool × Bool) (root : List Node) (delete : Bool)
@@ -370,7 +401,7 @@ def specDeleteOK (sel : List Str → Bool → Bool × Bool) (root : List Node) (
     | some top =>
       let parent := top.take (top.length - 1)
       let considered := if full then reachable sel top
-        else evs.any fun | .leave p _ => p == parent | _ => false
+        else evs.any fun | .leave p _ => p == parent | .skipped p _ => p == parent | _ => false
       let gone := !target.contains e
       if considered then gone == (sel top false).1
       else !gone
